@@ -33,11 +33,22 @@ pub struct Pat {
 
 pub fn parse_pat(line: &str) -> Option<Pat> {
 	let mut s = line;
-	if s.is_empty() || s.starts_with('#') {
+	// git: a line starting with '#' is a comment, trailing spaces are dropped unless the last one is quoted with a
+	// backslash, leading blanks belong to the pattern; "\#", "\!" and "\ " stand for the literal character
+	if s.starts_with('#') {
+		return None;
+	}
+	if !s.ends_with("\\ ") {
+		s = s.trim_end_matches(' ');
+	}
+	if s.is_empty() {
 		return None;
 	}
 	let neg = s.starts_with('!');
 	if neg {
+		s = &s[1..];
+	}
+	if s.starts_with("\\#") || s.starts_with("\\!") {
 		s = &s[1..];
 	}
 	let dir_only = s.ends_with('/');
@@ -49,7 +60,7 @@ pub fn parse_pat(line: &str) -> Option<Pat> {
 	if s.is_empty() {
 		return None;
 	}
-	let mut segs: Vec<String> = s.split('/').map(str::to_string).collect();
+	let mut segs: Vec<String> = s.split('/').map(|x| x.replace("\\ ", " ")).collect();
 	if !anchored {
 		segs.insert(0, "**".into());
 	}
@@ -155,6 +166,13 @@ fn gen_line(rng: &mut Rng) -> String {
 	}
 }
 
+/// Names and lines where blanks and the comment / negation characters are part of the text (one scenario in five).
+const ODD_FILENAMES: &[&str] = &[" lead.txt", "lead.txt", "sp ace.txt", "trail ", "trail", "#hash", "!bang", "x.tmp"];
+const ODD_LINES: &[&str] = &[
+	" lead.txt", "lead.txt", "  lead.txt", "sp ace.txt", "sp", "ace.txt", "trail\\ ", "trail ", "trail   ", "\\#hash", "\\!bang", "x.tmp  ", "# x.tmp", " # not a comment",
+	"! lead.txt", "!trail\\ ", "/ lead.txt", "*.txt ", " *.txt",
+];
+
 pub fn gen_scenario(rng: &mut Rng) -> Scenario {
 	let mut dirs: Vec<String> = vec![];
 	// depth <= 3, prefix-related siblings favoured
@@ -223,6 +241,28 @@ pub fn gen_scenario(rng: &mut Rng) -> Scenario {
 			_ => {}
 		}
 		entries.push(IgEntry { dir, lines });
+	}
+	if rng.chance(1, 5) {
+		for _ in 0..(2 + rng.usize(4)) {
+			let d = if rng.chance(1, 3) { String::new() } else { rng.pick(&dirs).clone() };
+			let n = *rng.pick(ODD_FILENAMES);
+			let f = if d.is_empty() { n.to_string() } else { format!("{d}/{n}") };
+			if !files.contains(&f) && !dirs.contains(&f) {
+				files.push(f);
+			}
+		}
+		for _ in 0..(1 + rng.usize(3)) {
+			let dir = match rng.below(6) {
+				0 => None,
+				1 | 2 => Some(String::new()),
+				_ => Some(rng.pick(&dirs).clone()),
+			};
+			let mut lines: Vec<String> = (0..(1 + rng.usize(4))).map(|_| (*rng.pick(ODD_LINES)).to_string()).collect();
+			if rng.chance(1, 2) {
+				lines.push(gen_line(rng));
+			}
+			entries.push(IgEntry { dir, lines });
+		}
 	}
 	Scenario { dirs, files, entries }
 }
